@@ -8,6 +8,7 @@ from concurrent.futures import ThreadPoolExecutor
 
 V = os.path.dirname(os.path.dirname(os.path.abspath(__file__)))
 REPO = os.environ.get('VERIF_REPO', '/repo')
+CONFIRM_CAP = 24   # violation classes confirmed by two replays each before reporting
 NPROC = int(os.environ.get('VERIF_JOBS', '16'))
 ASAN_ENV = {
     'ASAN_OPTIONS': 'detect_leaks=0:abort_on_error=0:quarantine_size_mb=8:malloc_context_size=8:detect_stack_use_after_return=0:allocator_may_return_null=1:handle_abort=1',
@@ -264,6 +265,7 @@ class Check:
             lst.sort(key=lambda v: (v['family'], v['i']))
         new, known_seen, harness_errors = [], {}, []
         replays = {}
+        not_replayed = []
 
         def matches(k, v):
             if k.get('property') != self.prop and not v['sig'].startswith('C15:'):
@@ -287,7 +289,12 @@ class Check:
                     rest.append(v)
             if not rest:
                 continue
-            # replay the first few of this class twice, alone, before reporting
+            # replay the first few of this class twice, alone, before reporting; under a storm of classes (a change that breaks
+            # nearly every case) only the first CONFIRM_CAP classes are replayed - the verdict needs one confirmed class, and
+            # the rest is counted in the evidence as not replayed
+            if len(new) >= CONFIRM_CAP:
+                not_replayed.append((sig, len(rest)))
+                continue
             confirmed = []
             for v in rest[:2]:
                 # one case can carry many classes: its two replays are shared between them
@@ -323,6 +330,9 @@ class Check:
             lines.append('VIOLATION property=%s replay=%s' % (self.prop, path))
             print('  class: %s  (x%d)  first: %s[%d]' % (sig, count, v['family'], v['i']))
             nviol += count
+        if not_replayed:
+            print('  ... and %d more violation classes (%d occurrences) not replayed: the cap of %d confirmed classes was reached' % (len(not_replayed), sum(n for _, n in not_replayed), CONFIRM_CAP))
+            nviol += sum(n for _, n in not_replayed)
         for kid, ks in sorted(known_seen.items()):
             print('KNOWN-FINDING: property=%s %s [%s; seen %d times this run]' % (self.prop, ks['entry']['what'], kid, ks['n']))
         for l in lines:
@@ -341,6 +351,7 @@ class Check:
             'counters': self.counters,
             'known_findings_seen': {k: v['n'] for k, v in known_seen.items()},
             'violation_classes': [s for s, _, _ in new],
+            'violation_classes_not_replayed': [s_ for s_, _ in not_replayed][:200],
             'build_s': round(self.build_s, 1),
             'notes': self.notes,
         }
